@@ -15,6 +15,7 @@ var (
 	errWrongStreamType = errors.New("wrong stream type")
 	errPastEndOfStream = errors.New("past end of stream")
 	errReposition      = errors.New("reposition")
+	errNothingToUnread = errors.New("nothing to unread")
 )
 
 // Stream is a prolog stream.
@@ -31,8 +32,14 @@ type Stream struct {
 	position    int64
 	endOfStream endOfStream
 	eofAction   eofAction
-	reposition  bool
-	streamType  streamType
+
+	// lastRead is how the last read ended, which decides what the following unread has to give back.
+	// lastEOS is endOfStream before the last read.
+	lastRead readResult
+	lastEOS  endOfStream
+
+	reposition bool
+	streamType streamType
 }
 
 // NewInputTextStream creates a new input text stream backed by the given io.Reader.
@@ -119,6 +126,8 @@ func (s *Stream) Name() string {
 // ReadByte reads a byte from the underlying source.
 // It throws an error if the stream is not an input binary stream.
 func (s *Stream) ReadByte() (byte, error) {
+	s.lastRead = readFailed
+
 	if err := s.initRead(); err != nil {
 		return 0, err
 	}
@@ -127,15 +136,23 @@ func (s *Stream) ReadByte() (byte, error) {
 		return 0, errWrongStreamType
 	}
 
+	eos := s.endOfStream
 	b, err := s.buf.ReadByte()
 	if err == nil {
 		s.position += 1
 	}
 	s.checkEOS(err)
+	s.setLastRead(err, eos)
 	return b, err
 }
 
 func (s *Stream) UnreadByte() error {
+	if s.lastRead == readEOF {
+		// The last read consumed nothing. There's nothing to give back but the end-of-stream state.
+		s.lastRead, s.endOfStream = readFailed, s.lastEOS
+		return nil
+	}
+
 	if err := s.initRead(); err != nil {
 		return err
 	}
@@ -143,6 +160,12 @@ func (s *Stream) UnreadByte() error {
 	if s.streamType != streamTypeBinary {
 		return errWrongStreamType
 	}
+
+	if s.lastRead != readOK {
+		// The last read consumed nothing. We must not give back what an earlier read consumed.
+		return errNothingToUnread
+	}
+	s.lastRead = readFailed
 
 	err := s.buf.UnreadByte()
 	if err == nil {
@@ -155,6 +178,8 @@ func (s *Stream) UnreadByte() error {
 // ReadRune reads the next rune from the underlying source.
 // It throws an error if the stream is not an input text stream.
 func (s *Stream) ReadRune() (r rune, size int, err error) {
+	s.lastRead = readFailed
+
 	if err := s.initRead(); err != nil {
 		return 0, 0, err
 	}
@@ -163,14 +188,22 @@ func (s *Stream) ReadRune() (r rune, size int, err error) {
 		return 0, 0, errWrongStreamType
 	}
 
+	eos := s.endOfStream
 	r, n, err := s.buf.ReadRune()
 	s.position += int64(n)
 	s.lastRuneSize = n
 	s.checkEOS(err)
+	s.setLastRead(err, eos)
 	return r, n, err
 }
 
 func (s *Stream) UnreadRune() error {
+	if s.lastRead == readEOF {
+		// The last read consumed nothing. There's nothing to give back but the end-of-stream state.
+		s.lastRead, s.endOfStream = readFailed, s.lastEOS
+		return nil
+	}
+
 	if err := s.initRead(); err != nil {
 		return err
 	}
@@ -178,6 +211,12 @@ func (s *Stream) UnreadRune() error {
 	if s.streamType != streamTypeText {
 		return errWrongStreamType
 	}
+
+	if s.lastRead != readOK {
+		// The last read consumed nothing. We must not give back what an earlier read consumed.
+		return errNothingToUnread
+	}
+	s.lastRead = readFailed
 
 	err := s.buf.UnreadRune()
 	if err == nil {
@@ -302,6 +341,17 @@ func (s *Stream) initRead() error {
 	return nil
 }
 
+func (s *Stream) setLastRead(err error, eos endOfStream) {
+	switch {
+	case err == nil:
+		s.lastRead = readOK
+	case errors.Is(err, io.EOF):
+		s.lastRead, s.lastEOS = readEOF, eos
+	default:
+		s.lastRead = readFailed
+	}
+}
+
 func (s *Stream) reset() {
 	if s.mode != ioModeRead {
 		return
@@ -309,6 +359,7 @@ func (s *Stream) reset() {
 
 	s.buf = newBufReader(s.source)
 	s.endOfStream = endOfStreamNot
+	s.lastRead = readFailed
 }
 
 func (s *Stream) checkEOS(err error) {
@@ -487,6 +538,18 @@ func (t streamType) Term() Term {
 		streamTypeBinary: atomBinary,
 	}[t]
 }
+
+// readResult describes how a read on an input stream ended.
+type readResult uint8
+
+const (
+	// readFailed means there was no read, it failed, or it's already been unread. It consumed nothing.
+	readFailed readResult = iota
+	// readOK means it consumed a byte or a rune, which can be given back.
+	readOK
+	// readEOF means it reported io.EOF. It consumed nothing but may have changed the end-of-stream state.
+	readEOF
+)
 
 type endOfStream uint8
 
